@@ -45,7 +45,7 @@ PARTS = {'element': _elem.element_part, 'values': values_part, 'doc': doc_part}
 SOURCES = {
     'C04': ['values'], 'C05': ['values'],
     'C08': ['doc'], 'C09': ['doc'], 'C14': ['doc'],
-    'C10': ['element', 'values'], 'C15': ['element', 'values'], 'C16': ['element', 'values'], 'C19': ['element', 'values', 'doc'],
+    'C10': ['element', 'values'], 'C15': ['element', 'values'], 'C16': ['element', 'values', 'doc'], 'C19': ['element', 'values', 'doc'],
 }
 ASSUME_VALUES = [
     'oracle: simple-type tables and pattern automata generated from the pinned XSD; lexical spaces defined in spec/Lexical.tla (guarded by LexicalTest examples)',
